@@ -38,7 +38,7 @@ func init() {
 			}
 			return 16
 		},
-		Rule: "each case = one real service stack (6 EOAs: rich, about k transactions' worth, empty; step price 0/1/12500000000; threshold 1-3 ms) + real TransactionPool + TXIDManager on the transitions' locator manager, and 3 proposal rounds. Round: offer 5-60 signed v3 transactions to the pool (timestamps on and around both window edges of the block to propose, runs of transactions of one sender that exhaust its balance at a random position, value sent to an empty account that spends it later in the same list, transactions already included in a finalized block, duplicates offered twice, step limits below the minimum, count/byte limits; in half of the first rounds a directed shape: fillers, then a large message transaction funding an empty account B, then a small transaction of B payable only from that funding, with Candidate's byte or count budget ending at the large one), call Candidate(wc of the parent state), judge the returned list with an independent ledger (window predicate, finalized-id set, no id twice, stepLimit >= default+input steps, balance >= stepLimit*price+value with the cumulative effect of the transactions before it) and differentially: service.NewTransition(parent, list, validated=false) must validate. The block is then executed and finalized and the next round starts with the pool as it is. Non-trivial = distinct round whose offered set contained at least one transaction the candidate list must not contain for each of two or more different reasons and whose returned list was not empty.",
+		Rule: "each case = one real service stack (6 EOAs: rich, about k transactions' worth, empty; step price 0/1/12500000000; threshold 1-3 ms) + real TransactionPool + TXIDManager on the transitions' locator manager, and 3 proposal rounds. Round: offer 5-60 signed v3 transactions to the pool (timestamps on and around both window edges of the block to propose, runs of transactions of one sender that exhaust its balance at a random position, value sent to an empty account that spends it later in the same list, transactions already included in a finalized block, duplicates offered twice, step limits below the minimum, count/byte limits; in a third of the first rounds a self transfer with value of a poor sender followed by a spend of the same sender sized against the real remaining balance (exactly affordable, or 1..value above it); in another third a directed shape: fillers, then a large message transaction funding an empty account B, then a small transaction of B payable only from that funding, with Candidate's byte or count budget ending at the large one), call Candidate(wc of the parent state), judge the returned list with an independent ledger (window predicate, finalized-id set, no id twice, stepLimit >= default+input steps, balance >= stepLimit*price+value with the cumulative effect of the transactions before it) and differentially: service.NewTransition(parent, list, validated=false) must validate. The block is then executed and finalized and the next round starts with the pool as it is. Non-trivial = distinct round whose offered set contained at least one transaction the candidate list must not contain for each of two or more different reasons and whose returned list was not empty.",
 		MinNonTrivial: func(t string) int {
 			if t == ev.Thorough {
 				return 5000
@@ -47,7 +47,8 @@ func init() {
 		},
 		Required: []string{"rounds", "candidates_selected", "offered_outside_window", "offered_at_eq-max", "offered_at_eq-min", "offered_committed",
 			"offered_exhausting", "offered_below_min_step", "offered_spend_received", "selected_spend_received", "revalidated_ok", "limit_count_hit", "limit_bytes_hit", "offered_duplicate_add",
-			"directed_budget_shape_bytes", "directed_budget_shape_count", "directed_big_left_out"},
+			"directed_budget_shape_bytes", "directed_budget_shape_count", "directed_big_left_out",
+			"directed_self-then-overspend", "directed_self-then-exact-spend", "selected_self_transfer", "selected_self-then-exact-spend"},
 		Assumptions: []string{
 			"the proposer's parent block is finalized when it proposes (consensus order), so 'included before' = finalized ids; Candidate is asked with the parent's result state",
 			"completeness (that every valid transaction is selected) is not part of the statement and not judged",
@@ -313,7 +314,55 @@ func (e *env) round(c *ev.Ctx, r *rand.Rand, parent *feefix.Block, bts int64, ro
 	// ends right before / at the large one. Whatever Candidate does with the
 	// budget, B's transaction may only be selected together with its funding.
 	dirBytes, dirCount := 0, 0
-	if round == 0 && r.Intn(2) == 0 {
+	shape := -1
+	if round == 0 {
+		shape = r.Intn(3)
+	}
+	if shape == 1 {
+		// Directed shape 2: a SELF transfer (from == to, value > 0) of a poor
+		// sender followed by another transaction of the same sender that costs
+		// more than what really remains after the self transfer's fee (must not
+		// be selected) or exactly what remains (may be selected).
+		si := 3
+		sender := e.st.Wallets[si]
+		b := balOf(sender.Address())
+		fee := new(big.Int).Mul(big.NewInt(e.defCost), e.price)
+		if b.Cmp(new(big.Int).Add(fee, big.NewInt(2))) > 0 {
+			v := new(big.Int).Sub(b, fee)
+			v.Div(v, big.NewInt(int64(1+r.Intn(3)))) // value of the self transfer: up to everything but the fee
+			if v.Sign() == 0 {
+				v = big.NewInt(1)
+			}
+			remain := new(big.Int).Sub(b, fee) // after the self transfer
+			var v2 *big.Int
+			tag := "self-then-overspend"
+			if r.Intn(3) == 0 {
+				// affordable: costs exactly what remains (or less)
+				v2 = new(big.Int).Sub(remain, fee)
+				tag = "self-then-exact-spend"
+			} else {
+				// remain < cost2 <= remain + v (what a stale credit would pretend)
+				v2 = new(big.Int).Sub(remain, fee)
+				v2.Add(v2, big.NewInt(1))
+				v2.Add(v2, new(big.Int).Rand(r, v))
+			}
+			if v2.Sign() >= 0 {
+				selfTx := e.mk(r, si, sender.Address(), v, big.NewInt(e.defCost), bts-e.th+2, -1, "self-transfer")
+				spend := e.mk(r, si, e.st.Wallets[0].Address(), v2, big.NewInt(e.defCost), bts-e.th+3, -1, tag)
+				var rest []*otx
+				for _, o := range offered {
+					if o.from != si && o.tag != "committed" {
+						rest = append(rest, o)
+					}
+				}
+				offered = append([]*otx{selfTx, spend}, rest...)
+				reasons["balance"], reasons["self-transfer"] = true, true
+				c.Count("directed_self_transfer_shape", 1)
+				c.Count("directed_"+tag, 1)
+			}
+		}
+	}
+	if shape == 0 {
 		bi := 4 + r.Intn(2)
 		if balOf(e.st.Wallets[bi].Address()).Sign() == 0 {
 			var group []*otx
@@ -454,6 +503,12 @@ func (e *env) round(c *ev.Ctx, r *rand.Rand, parent *feefix.Block, bts int64, ro
 		tb.Add(tb, o.value)
 		if o.tag == "spend-received" {
 			c.Count("selected_spend_received", 1)
+		}
+		if o.tag == "self-transfer" {
+			c.Count("selected_self_transfer", 1)
+		}
+		if o.tag == "self-then-exact-spend" || o.tag == "self-then-overspend" {
+			c.Count("selected_"+o.tag, 1)
 		}
 	}
 	if dirBytes > 0 || dirCount > 0 {
